@@ -5,6 +5,8 @@ import AfkakProofs.Consumer.Inv0
 namespace Afkak.Proofs.Consumer
 open Afkak.Consumer Afkak.Monitor Afkak.Consts
 
+variable [EnvHyp]
+
 /-- `_do_fetch` while the consumer is running -/
 theorem doFetch_good (cfg : Cfg) {s0 s : St} (h : Good cfg s0 s) (hr : s.startD ≠ .none) : Good cfg s0 (doFetch cfg s) := by
   unfold doFetch startErrback errbackRaises
@@ -13,9 +15,9 @@ theorem doFetch_good (cfg : Cfg) {s0 s : St} (h : Good cfg s0 s) (hr : s.startD 
 
 /-- `_handle_offset_response` for an OffsetResponse (the OffsetFetchResponse case changes the committed
     offset and is treated with its event) -/
-theorem offsetResponseTail_pres (cfg : Cfg) (o : Int) : Pres cfg (offsetResponseTail cfg false o) := by
-  intro s hs
-  have hx := Good.refl hs
+theorem offsetResponseTail_good (cfg : Cfg) (o : Int) {s0 s : St} (hx : Good cfg s0 s) (ha : EnvHyp.sane → Armed cfg s) :
+    Good cfg s0 (offsetResponseTail cfg false o s) := by
+  unfold Armed at ha
   unfold offsetResponseTail
   split
   · exact hx
@@ -56,26 +58,40 @@ theorem handleOffsetError_good (cfg : Cfg) (f : Fail) {s0 s : St} (hx : Good cfg
   unfold handleOffsetError
   exact (offsetErrorTail_pres cfg f).step (by leaf hx)
 
-theorem fetchErrorTail_pres (cfg : Cfg) (f : Fail) : Pres cfg (fetchErrorTail cfg f) := by
-  intro s hs
-  have hx := Good.refl hs
+theorem fetchErrorTail_good (cfg : Cfg) (f : Fail) {s0 s : St} (hx : Good cfg s0 s)
+    (ha : EnvHyp.sane → f.isOutOfRange = true → cfg.reset.isSome = true → Armed cfg s) :
+    Good cfg s0 (fetchErrorTail cfg f s) := by
+  unfold Armed at ha
   unfold fetchErrorTail
   simp only []
-  repeat' split
-  all_goals first
-    | exact hx
-    | exact (startErrback_pres cfg f).step hx
-    | exact (retryFetch_pres cfg none).step hx
-    | leaf hx
-    | exact (startErrback_pres cfg f).step (by leaf hx)
-    | exact (retryFetch_pres cfg none).step (by leaf hx)
+  split
+  · exact hx
+  · split
+    · exact (startErrback_pres cfg f).step hx
+    · rename_i hnr
+      have h1 : Good cfg s0 (if f.isOutOfRange then { s with fetchOffset := cfg.reset.getD s.fetchOffset } else s) := by
+        split
+        · rename_i ho
+          have hr : cfg.reset.isSome = true := by
+            cases hc : cfg.reset with
+            | none => simp [ho, hc] at hnr
+            | some v => rfl
+          have ha' := fun hP => ha hP ho hr
+          leaf hx
+        · exact hx
+      generalize (if f.isOutOfRange then { s with fetchOffset := cfg.reset.getD s.fetchOffset } else s) = s1 at *
+      repeat' split
+      all_goals first
+        | exact h1
+        | exact (startErrback_pres cfg f).step h1
+        | exact (retryFetch_pres cfg none).step h1
 
 /-- `_handle_fetch_error` for a request that is no longer counted as outstanding -/
 theorem handleFetchError_good (cfg : Cfg) (f : Fail) {s0 s : St} (hx : Good cfg s0 s) (hq : activeReq s.requestD = none)
-    (hpk : s.parked = none) :
+    (hpk : s.parked = none) (ha : EnvHyp.sane → f.isOutOfRange = true → cfg.reset.isSome = true → Armed cfg s) :
     Good cfg s0 (handleFetchError cfg f s) := by
   unfold handleFetchError
-  exact (fetchErrorTail_pres cfg f).step (by leaf hx)
+  exact fetchErrorTail_good cfg f (by leaf hx) ha
 
 /-- `commit()` -/
 theorem commitState_pres (cfg : Cfg) (w : Who) : Pres cfg (commitState cfg w) := by
